@@ -128,6 +128,32 @@ def root_key(cfg):
     return [int(s[0]), int(s[1])]
 
 
+ETAG = (200, 1)         # path standing for the key installed by set_engine_seed (CorrC10.tagkey 1)
+
+
+def engine_root_key(cfg):
+    """the concrete key set_engine_seed installs (int: PRNGKey(int); key: the key itself)"""
+    L = lib()
+    np, jax = L["np"], L["jax"]
+    es = cfg["eseed"]
+    if es[0] == "int":
+        k = np.asarray(jax.random.PRNGKey(int(es[1]))).astype(np.uint32)
+        return [int(k[0]), int(k[1])]
+    return [int(es[1][0]), int(es[1][1])]
+
+
+def overridden(cfg):
+    es = cfg.get("eseed")
+    return es is not None and es[0] in ("int", "key")
+
+
+def concrete_key(cfg, path):
+    """the concrete key of a path of the configuration's key flow"""
+    if path and tuple(path[0]) == ETAG:
+        return ek.derive_key(engine_root_key(cfg), path[1:])
+    return ek.derive_key(root_key(cfg), path)
+
+
 def pos_names(cfg):
     return [f"p{k}" for k in range(cfg["nker"])] + ["x"]
 
@@ -143,7 +169,10 @@ def run_config(cfg):
               via: 'builder'|'engine', chunk: int (only read for via='engine'),
               jit: None | [position names in dict order],
               init_mode: 'replicate'|'per_chain', init: [[slot-0 values of p0..p(nk-1), x], ...]
-                         (one row for 'replicate', one row per supplied chain for 'per_chain')}
+                         (one row for 'replicate', one row per supplied chain for 'per_chain'),
+              optional: eseed: ['int', s] | ['key', [w0, w1]] | ['ctor']   (EngineBuilder.set_engine_seed),
+                        builds: how often build() is called (the last engine is run),
+                        pre_init: {mode, init} set and built (engine dropped) before the real initial values}
     Returns a dict of plain Python data (error = None or the exception class name)."""
     L = lib()
     jax, jnp, np, gs = L["jax"], L["jnp"], L["np"], L["gs"]
@@ -154,16 +183,19 @@ def run_config(cfg):
     def vec(v):
         return [int(v), -1, -1, -1, -1]
 
-    rows = cfg["init"]
-    if cfg["init_mode"] == "replicate":
-        state = {"clock": jnp.int32(0), "cid": jnp.int32(0)}
-        for j, nm in enumerate(names):
-            state[nm] = jnp.asarray(vec(rows[0][j]), dtype=jnp.int32)
-    else:
-        m = len(rows)
-        state = {"clock": jnp.zeros((m,), dtype=jnp.int32), "cid": jnp.zeros((m,), dtype=jnp.int32)}
-        for j, nm in enumerate(names):
-            state[nm] = jnp.asarray([vec(r[j]) for r in rows], dtype=jnp.int32)
+    def make_state(mode, rows):
+        if mode == "replicate":
+            st = {"clock": jnp.int32(0), "cid": jnp.int32(0)}
+            for j, nm in enumerate(names):
+                st[nm] = jnp.asarray(vec(rows[0][j]), dtype=jnp.int32)
+        else:
+            m = len(rows)
+            st = {"clock": jnp.zeros((m,), dtype=jnp.int32), "cid": jnp.zeros((m,), dtype=jnp.int32)}
+            for j, nm in enumerate(names):
+                st[nm] = jnp.asarray([vec(r[j]) for r in rows], dtype=jnp.int32)
+        return st
+
+    state = make_state(cfg["init_mode"], cfg["init"])
 
     kernels = [L["WalkKernel"](k, nk) for k in range(nk)]
     gens = [L["KeyGen"](g) for g in range(nq)]
@@ -183,12 +215,27 @@ def run_config(cfg):
         for g in gens:
             builder.add_quantity_generator(g)
         builder.positions_included = ["x"]
-        builder.set_initial_values(state, multiple_chains=(cfg["init_mode"] == "per_chain"))
+        builder.set_epochs(epochs)
+        es = cfg.get("eseed")
+        if es is not None:
+            if es[0] == "int":
+                builder.set_engine_seed(int(es[1]))
+            elif es[0] == "key":
+                builder.set_engine_seed(jnp.asarray(es[1], dtype=jnp.uint32))
+            else:                                   # "ctor": hand the constructor's own engine key back
+                builder.set_engine_seed(builder.engine_seed)
         if cfg["jit"] is not None:
             builder.set_jitter_fns({nm: L["jitter_fn"] for nm in cfg["jit"]})
-        builder.set_epochs(epochs)
+        pre = cfg.get("pre_init")
+        if pre is not None and cfg["via"] == "builder":
+            # builder reuse: other initial values are set and an engine is built (and dropped) first
+            builder.set_initial_values(make_state(pre["mode"], pre["init"]),
+                                       multiple_chains=(pre["mode"] == "per_chain"))
+            builder.build()
+        builder.set_initial_values(state, multiple_chains=(cfg["init_mode"] == "per_chain"))
         if cfg["via"] == "builder":
-            engine = builder.build()
+            for _ in range(int(cfg.get("builds", 1))):
+                engine = builder.build()            # the engine under test is the last one built
             chunk = builder_chunk(cfg)
         else:
             # the public Engine constructor with the ingredients the builder would pass, except for the
@@ -251,6 +298,8 @@ def py_events(cfg, chunk):
     root = ()
     splits.append((root, 3))
     eng, jit = sp(root, 3, 1), sp(root, 3, 2)
+    if overridden(cfg):
+        eng = (ETAG,)
     splits.append((eng, nch))
     if cfg["jit"] is not None:
         nfn = len(cfg["jit"])
